@@ -176,7 +176,7 @@ theorem setrow_loop (fuel v : Nat) (xs : List Nat) (ol : PV) :
           e1.vertex_index = .int (v : Int) ∧ e1.observed_length = ol := by
         simp only [Gen.get_complete_accessor.for2_body, pyUnpack_two_tup, bnd_ok, ha, hv,
           List.getD_cons_zero, List.getD_cons_succ, npSetItem2_nat hr hj, hset]
-        exact ⟨_, rfl, rfl, hv, ho⟩
+        exact ⟨_, rfl, rfl, by first | rfl | exact hv, ho⟩
       obtain ⟨e', hl, ha', ho'⟩ := ih (n + 1) (pre ++ [.int (x : Int)]) suf
         (rows.set v (.arr ((pre ++ [.int (x : Int)]) ++ suf))) e1 (by simp [hn]) ha1 hv1
         (by
@@ -223,6 +223,20 @@ theorem rowsAt_full (k : Nat) : PV.arr (rowsAt k (4 ^ k) (4 ^ k)) = accPV (getCo
   have : v < 4 ^ k := List.mem_range.mp hv
   simp [this, latRow]
 
+/-- the inner loop on the state reached after `i` iterations of the outer loop. -/
+theorem setrow_rowsAt (k n fuel i : Nat) (hi : i < n) (e : Gen.get_complete_accessor.Env)
+    (h2 : e.accessor = .arr (rowsAt k n i)) (hv : e.vertex_index = .int (i : Int))
+    (h1 : e.observed_length = .int (k : Int)) :
+    ∃ e1, forLoop (Gen.get_complete_accessor.for2_body fuel)
+        (enumFrom 0 ((obtainLatters k i).map fun (x : Nat) => PV.int (x : Int))) e = .ok (.norm e1) ∧
+      e1.accessor = .arr (rowsAt k n (i + 1)) ∧ e1.observed_length = .int (k : Int) := by
+  obtain ⟨e', hl, ha', ho'⟩ := setrow_loop fuel i (obtainLatters k i) (.int (k : Int)) 0 []
+    (List.replicate 4 (.int (-1))) (rowsAt k n i) e rfl h2 hv
+    (by rw [rowsAt_getElem? hi]; simp [negRow]) (by simp [obtainLatters]) h1
+  refine ⟨e', hl, ?_, ho'⟩
+  rw [ha', List.nil_append]
+  exact congrArg PV.arr (rowsAt_set k n i)
+
 def AccInv (k n i : Nat) (e : Gen.get_complete_accessor.Env) : Prop :=
   e.observed_length = .int (k : Int) ∧ e.accessor = .arr (rowsAt k n i)
 
@@ -235,12 +249,7 @@ theorem accessor_body (k n fuel i : Nat) (hi : i < n) (e : Gen.get_complete_acce
     pyIter_list]
   apply seq_exists_of_norm (fun e1 => e1.accessor = .arr (rowsAt k n (i + 1)) ∧
     e1.observed_length = .int (k : Int))
-  · obtain ⟨e', hl, ha', ho'⟩ := setrow_loop fuel i (obtainLatters k i) (.int (k : Int)) 0 []
-      (List.replicate 4 (.int (-1))) (rowsAt k n i) _ rfl (by exact h2) (by rfl)
-      (by rw [rowsAt_getElem? hi]; simp [negRow]) (by simp [obtainLatters]) (by first | rfl | exact h1)
-    refine ⟨e', hl, ?_, ho'⟩
-    rw [ha', List.nil_append]
-    exact congrArg PV.arr (rowsAt_set k n i)
+  · exact setrow_rowsAt k n fuel i hi _ (by exact h2) (by rfl) (by first | rfl | exact h1)
   · intro e1 h
     exact ⟨e1, by simp only [Gen.get_complete_accessor.k1, bnd_ok, ite_self], h.2, h.1⟩
 
